@@ -2,6 +2,12 @@
 //! (FASTA files prepared by lib/gen_samples.py) through the library API exactly as ragc-cli does, reopen it
 //! with the real Decompressor and print, per sample and contig, name (hex), length and sha256 prefix of the
 //! extracted bases (as letters).  case:  rt <dir> <params k,s,m,pack,threads,qcap,ff>
+//! case  dt <dir> <params>  (contig-level correspondence with coq/model/Pipeline.v): after the real create,
+//! print k (from the archive), the splitter set the compressor was given (sorted), and per sample / contig the
+//! descriptor list (group, in-group id, rc flag, raw_length) with each descriptor's decoded STORED bytes
+//! (get_segment_data_by_desc) and the extracted contig (get_sample):
+//!   OK k=<k> spl=<hex u64,..|-> S <name> C <name> D <g>:<id>:<rc>:<len>:<stored hex> .. X <contig hex> C .. S ..
+//! case  spl <dir> <params>  prints only the splitter set
 #[path = "../mk.rs"]
 mod mk;
 #[path = "../runner.rs"]
@@ -40,8 +46,87 @@ pub fn catalogue(path: &str) -> anyhow::Result<String> {
     Ok(out.join(";"))
 }
 
+/// the splitter set mk::create hands to StreamingQueueCompressor::with_splitters (same calls as mk.rs)
+fn splitters_of(inputs: &[std::path::PathBuf], p: &mk::Params) -> anyhow::Result<Vec<u64>> {
+    let set = if inputs.len() == 1 {
+        ragc_core::determine_splitters_streaming_first_sample(&inputs[0], p.k, p.segment_size)?.0
+    } else {
+        ragc_core::determine_splitters_streaming(&inputs[0], p.k, p.segment_size)?.0
+    };
+    let mut v: Vec<u64> = set.into_iter().collect();
+    v.sort_unstable();
+    Ok(v)
+}
+
+fn details(path: &str) -> anyhow::Result<String> {
+    let mut d = Decompressor::open(path, DecompressorConfig { verbosity: 0 })?;
+    let mut out: Vec<String> = vec![format!("k={}", d.kmer_length)];
+    let mut body: Vec<String> = Vec::new();
+    for s in d.list_samples() {
+        body.push(format!("S {}", hex(s.as_bytes())));
+        let names = d.list_contigs(&s)?;
+        let contigs = d.get_sample(&s)?;
+        if names.len() != contigs.len() {
+            anyhow::bail!("list_contigs and get_sample disagree for {}", s);
+        }
+        for ((name, seq), n2) in contigs.iter().zip(names.iter()) {
+            if name != n2 {
+                anyhow::bail!("contig name order differs");
+            }
+            body.push(format!("C {}", hex(name.as_bytes())));
+            for desc in d.get_contig_segments_desc(&s, name)? {
+                let stored = d.get_segment_data_by_desc(&desc)?;
+                body.push(format!(
+                    "D {}:{}:{}:{}:{}",
+                    desc.group_id,
+                    desc.in_group_id,
+                    b2s(desc.is_rev_comp),
+                    desc.raw_length,
+                    hex(&stored)
+                ));
+            }
+            body.push(format!("X {}", hex(seq)));
+        }
+    }
+    out.append(&mut body);
+    Ok(out.join(" "))
+}
+
 fn run(t: &[&str]) -> String {
     match t {
+        // only the splitter set (sorted): used by the generator to aim mutations at splitter k-mers
+        ["spl", dir, params] => {
+            let p = mk::Params::parse(params);
+            match splitters_of(&mk::case_inputs(dir), &p) {
+                Ok(v) if v.is_empty() => "OK -".into(),
+                Ok(v) => format!("OK {}", v.iter().map(|x| format!("{:x}", x)).collect::<Vec<_>>().join(",")),
+                Err(e) => format!("SPLITTERS-ERR {}", format!("{:#}", e).replace('\n', " ")),
+            }
+        }
+        ["dt", dir, params] => {
+            let p = mk::Params::parse(params);
+            let out = format!("{}/out.agc", dir);
+            let _ = std::fs::remove_file(&out);
+            let inputs = mk::case_inputs(dir);
+            let spl = match splitters_of(&inputs, &p) {
+                Ok(v) => v,
+                Err(e) => return format!("SPLITTERS-ERR {}", format!("{:#}", e).replace('\n', " ")),
+            };
+            if let Err(e) = mk::create(&out, &inputs, &p) {
+                return format!("CREATE-ERR {}", format!("{:#}", e).replace('\n', " "));
+            }
+            let spl_s =
+                if spl.is_empty() { "-".to_string() } else { spl.iter().map(|x| format!("{:x}", x)).collect::<Vec<_>>().join(",") };
+            match details(&out) {
+                Ok(c) => {
+                    let mut f = c.splitn(2, ' ');
+                    let k = f.next().unwrap_or("");
+                    let rest = f.next().unwrap_or("");
+                    format!("OK {} spl={} {}", k, spl_s, rest).trim_end().to_string()
+                }
+                Err(e) => format!("EXTRACT-ERR {}", format!("{:#}", e).replace('\n', " ")),
+            }
+        }
         ["rt", dir, params] => {
             let p = mk::Params::parse(params);
             let out = format!("{}/out.agc", dir);
@@ -59,5 +144,15 @@ fn run(t: &[&str]) -> String {
 }
 
 fn main() {
+    // the library prints progress / debug lines to stderr (e.g. determine_splitters_streaming_first_sample);
+    // bin/check merges the two streams, so stderr goes to /dev/null unless asked for
+    if std::env::var("VERIF_PANIC_VERBOSE").is_err() {
+        unsafe {
+            let fd = libc::open(b"/dev/null\0".as_ptr() as *const libc::c_char, libc::O_WRONLY);
+            if fd >= 0 {
+                libc::dup2(fd, 2);
+            }
+        }
+    }
     runner::main_loop(run);
 }
